@@ -15,21 +15,6 @@ META = dict(
 )
 
 
-def tv_gaps(ctx, events_path, name, demo=False):
-    """Validate recorded ranges.Gaps calls against Gaps.tla; returns list of (line, sig)."""
-    r = ctx.tlc('TraceGaps', 'TraceGaps.cfg', files={'trace.ndjson': events_path}, workers=1, name=name,
-                count=not demo, timeout=900)
-    ctx.tlc_expect_ok(r, 'TraceGaps ' + name)
-    rej, drift = [], 0
-    for line in r.raw_printed:
-        if line.startswith('<<"REJECT"'):
-            parts = line.strip('<>').split(',')
-            rej.append((int(parts[1]), parts[2].strip().strip('"')))
-        elif line.startswith('<<"DRIFT"'):
-            drift += 1
-    return rej, drift
-
-
 def gaps_arm(ctx):
     thorough = ctx.tier == 'thorough'
     # 1. MC: as-built refines as-required (Slack 0), and as built (Slack 1) fails only by lost coverage
@@ -63,7 +48,8 @@ def gaps_arm(ctx):
     events = vlib.read_ndjson(ev1) + vlib.read_ndjson(ev2)
     allp = os.path.join(ctx.build, 'gaps_all.ndjson')
     vlib.write_ndjson(allp, events)
-    rej, drift = tv_gaps(ctx, allp, 'tv_gaps')
+    rej, driftl, _ = ctx.tv('TraceGaps', 'TraceGaps.cfg', allp, name='tv_gaps')
+    drift = len(driftl)
     ctx.cov['traces_validated_against_impl'] += len(events)
     ctx.cov['evaluations'] += len(events)
     ctx.cov['gaps_calls_validated'] = len(events)
@@ -90,15 +76,7 @@ def gaps_arm(ctx):
     bad['gaps'][0][1] += 1      # gap one bit too long: overlaps a field or leaves the buffer
     bad2 = copy.deepcopy(events[k])
     bad2['gaps'] = bad2['gaps'][1:]   # a gap dropped: bits uncovered
-    demo = [events[0], bad, events[1], bad2]
-    dp = os.path.join(ctx.build, 'gaps_demo.ndjson')
-    vlib.write_ndjson(dp, demo)
-    drej, _ = tv_gaps(ctx, dp, 'tv_gaps_demo', demo=True)
-    lines = sorted(l for l, _ in drej)
-    ok = lines == [2, 4]
-    ctx.cov['binding_demo'].append(dict(spec='TraceGaps', corrupted_lines=[2, 4], rejected_lines=lines, ok=ok))
-    if not ok:
-        raise Inconclusive('binding demo failed: TraceGaps accepted a corrupted event (%s)' % lines)
+    ctx.binding_demo('TraceGaps', 'TraceGaps.cfg', [events[0], bad, events[1], bad2], [2, 4])
 
 
 def run(ctx):
